@@ -66,17 +66,7 @@ func NetConn(ctx context.Context, c *Conn, msgType MessageType) net.Conn {
 			// The deadline was reset after the timer had fired.
 			return
 		}
-
-		if !nc.writeMu.tryLock() {
-			// If the lock cannot be acquired, then there is an
-			// active write goroutine and so we should cancel the context.
-			nc.writeCancel()
-			return
-		}
-		defer nc.writeMu.unlock()
-
-		// Prevents future writes from writing until the deadline is reset.
-		atomic.StoreInt64(&nc.writeExpired, 1)
+		nc.writeDeadlineExpired()
 	})
 	if !nc.writeTimer.Stop() {
 		<-nc.writeTimer.C
@@ -89,23 +79,41 @@ func NetConn(ctx context.Context, c *Conn, msgType MessageType) net.Conn {
 			// The deadline was reset after the timer had fired.
 			return
 		}
-
-		if !nc.readMu.tryLock() {
-			// If the lock cannot be acquired, then there is an
-			// active read goroutine and so we should cancel the context.
-			nc.readCancel()
-			return
-		}
-		defer nc.readMu.unlock()
-
-		// Prevents future reads from reading until the deadline is reset.
-		atomic.StoreInt64(&nc.readExpired, 1)
+		nc.readDeadlineExpired()
 	})
 	if !nc.readTimer.Stop() {
 		<-nc.readTimer.C
 	}
 
 	return nc
+}
+
+// writeDeadlineExpired is called with writeDeadlineMu held once the write deadline has passed.
+func (nc *netConn) writeDeadlineExpired() {
+	if !nc.writeMu.tryLock() {
+		// If the lock cannot be acquired, then there is an
+		// active write goroutine and so we should cancel the context.
+		nc.writeCancel()
+		return
+	}
+	defer nc.writeMu.unlock()
+
+	// Prevents future writes from writing until the deadline is reset.
+	atomic.StoreInt64(&nc.writeExpired, 1)
+}
+
+// readDeadlineExpired is called with readDeadlineMu held once the read deadline has passed.
+func (nc *netConn) readDeadlineExpired() {
+	if !nc.readMu.tryLock() {
+		// If the lock cannot be acquired, then there is an
+		// active read goroutine and so we should cancel the context.
+		nc.readCancel()
+		return
+	}
+	defer nc.readMu.unlock()
+
+	// Prevents future reads from reading until the deadline is reset.
+	atomic.StoreInt64(&nc.readExpired, 1)
 }
 
 // deadlineDue reports whether the deadline t is set and has passed. A timer
@@ -249,7 +257,12 @@ func (nc *netConn) SetWriteDeadline(t time.Time) error {
 	} else {
 		dur := time.Until(t)
 		if dur <= 0 {
-			dur = 1
+			// Already passed. Do now what the timer would do a moment later:
+			// a call that starts right after us must not be taken for one
+			// that was active when the deadline passed (and be cancelled).
+			nc.writeTimer.Stop()
+			nc.writeDeadlineExpired()
+			return nil
 		}
 		nc.writeTimer.Reset(dur)
 	}
@@ -267,7 +280,10 @@ func (nc *netConn) SetReadDeadline(t time.Time) error {
 	} else {
 		dur := time.Until(t)
 		if dur <= 0 {
-			dur = 1
+			// Already passed, see SetWriteDeadline.
+			nc.readTimer.Stop()
+			nc.readDeadlineExpired()
+			return nil
 		}
 		nc.readTimer.Reset(dur)
 	}
